@@ -353,6 +353,11 @@ func vfCheckSackComplete(s *vfSim, res *vfRes) {
 		var fwd uint32
 		haveFwd := false
 		creditOK := true
+		// a TSN beyond the receiver's tracking window is dropped, not accepted
+		win := uint32(2048)
+		if a := s.getAssoc(side); a != nil {
+			win = a.payloadQueue.maxTSNOffset
+		}
 		for _, e := range evs {
 			if e.Pkt == nil {
 				e.Pkt = vfDecode(e.Raw)
@@ -365,7 +370,7 @@ func vfCheckSackComplete(s *vfSim, res *vfRes) {
 				}
 				for i := range p.Chunks {
 					c := &p.Chunks[i]
-					if c.isData() && creditOK {
+					if c.isData() && creditOK && e.Snap != nil && sna32LTE(c.TSN, e.Snap.PeerLastTSN+win) {
 						got[c.TSN] = true
 					}
 					if c.Type == vfCtForwardTSN || c.Type == vfCtIForwardTSN {
